@@ -6,6 +6,7 @@ pub mod c06;
 pub mod c08;
 pub mod c10;
 pub mod c11;
+pub mod c12;
 pub mod c13;
 pub mod c14;
 pub mod c15;
@@ -25,6 +26,7 @@ pub fn run(prop: &str, tier: Tier, seed: u64) -> i32 {
         "C08" => c08::run(tier, seed),
         "C10" => c10::run(tier, seed),
         "C11" => c11::run(tier, seed),
+        "C12" => c12::run(tier, seed),
         "C13" => c13::run(tier, seed),
         "C14" => c14::run(tier, seed),
         "C15" => c15::run(tier, seed),
@@ -54,6 +56,7 @@ pub fn replay(prop: &str, path: &str) -> i32 {
         "C08" => c08::replay(&doc),
         "C10" => c10::replay(&doc),
         "C11" => c11::replay(&doc),
+        "C12" => c12::replay(&doc),
         "C13" => c13::replay(&doc),
         "C14" => c14::replay(&doc),
         "C15" => c15::replay(&doc),
